@@ -54,3 +54,55 @@ Example C17_example :
   returned s = [(12, ROk 72); (10, ROk 70); (11, RCancelled); (13, RConnErr)].
 Proof. vm_compute. split; reflexivity. Qed.
 Print Assumptions C17_example.
+
+(* ---- the server's two connection tables (Models/ConnTable.v): which connection a request or a
+   reply is handed to, over any history of requests, accepted connections, connections ending and
+   their removal announcements being processed at any later time *)
+From DosVerif Require Import Models.ConnTable Proofs.ConnTableProofs.
+
+(* in every reachable state an entry of a table names a connection to that very peer, made in that
+   table's direction, alive or with its removal announced *)
+Theorem C17_tables_invariant : forall es, cinv (fst (crun c0 es)).
+Proof. exact reachable_inv. Qed.
+Print Assumptions C17_tables_invariant.
+
+(* a request to a peer goes out on a connection dialled to THAT peer *)
+Theorem C17_request_uses_own_connection :
+  forall s id ok c, cinv s ->
+  (snd (cstep s (CReq id ok)) = Routed c \/ snd (cstep s (CReq id ok)) = Dialled c) ->
+  exists x, nth_error (conns (fst (cstep s (CReq id ok)))) c = Some x /\ c_id x = id /\ c_inbound x = false.
+Proof. exact request_uses_own_connection. Qed.
+Print Assumptions C17_request_uses_own_connection.
+
+(* a reply goes out on the connection accepted from the requester *)
+Theorem C17_reply_uses_requesters_connection :
+  forall s id c, cinv s -> snd (cstep s (CReply id)) = Routed c ->
+  exists x, nth_error (conns s) c = Some x /\ c_id x = id /\ c_inbound x = true.
+Proof. exact reply_uses_requesters_connection. Qed.
+Print Assumptions C17_reply_uses_requesters_connection.
+
+(* once the announced removals are processed the calling table holds live connections only *)
+Theorem C17_settled_tables_live :
+  forall s id c, cinv s -> pend_calling s = [] -> lookupn id (calling s) = Some c -> is_live s c = true.
+Proof. exact settled_tables_live. Qed.
+Print Assumptions C17_settled_tables_live.
+
+(* a peer that went away (every connection with it ended) leaves no entry behind once the handlers
+   settled: the next request to it dials afresh, its next connection is accepted - a closed
+   connection never wedges later requests to that peer *)
+Theorem C17_peer_gone_tables_clean :
+  forall s id, cinv s ->
+  let s' := settled (fst (crun s (ends_of s id))) in
+  lookupn id (calling s') = None /\ lookupn id (incoming s') = None.
+Proof. exact peer_gone_tables_clean. Qed.
+Print Assumptions C17_peer_gone_tables_clean.
+
+(* the variant in which a dialled connection announces its end to the accepted connections' channel:
+   the dead entry stays and the next request is handed to a dead connection; the code's version dials *)
+Example C17_wrong_channel_refuted :
+  let s1 := fst (cstep_wrong (fst (cstep c0 (CReq 4 true))) (CEnd 0)) in
+  let s2 := settled s1 in
+  snd (cstep s2 (CReq 4 true)) = Routed 0 /\ is_live s2 0 = false /\
+  snd (cstep (settled (fst (cstep (fst (cstep c0 (CReq 4 true))) (CEnd 0)))) (CReq 4 true)) = Dialled 1.
+Proof. exact wrong_channel_refuted. Qed.
+Print Assumptions C17_wrong_channel_refuted.
